@@ -179,6 +179,25 @@ def precedes(fn, a, b):
     return True, 'earlier statement of the same block'
 
 
+def sym_env(fn):
+    """environment binding the fn's own parameters to symbolic terms (analysis relative to the fn itself)"""
+    env = {}
+
+    def bind(pat, term):
+        k = pat.get('k')
+        if k == 'bind':
+            env[pat['hid']] = term
+        elif k in ('ref', 'guard'):
+            bind(pat['pat'], term)
+        elif k == 'tuple':
+            for i, p in enumerate(pat['pats']):
+                bind(p, ('tproj', term, i))
+    for i, p in enumerate(fn.params):
+        name = p.get('name', '') if p.get('k') == 'bind' else ''
+        bind(p, ('param', fn.key, i, name))
+    return env
+
+
 class CallGraph:
     def __init__(self, prog, pv):
         self.prog = prog
@@ -192,6 +211,9 @@ class CallGraph:
                 ex = self.ext.setdefault(fn.key, set())
                 for n in fn.walk(lambda n: n['k'] in ('call', 'mcall', 'path')):
                     if n['k'] == 'path':
+                        pr = fn.parent.get(id(n))
+                        if pr and pr[0] is not None and pr[0].get('k') == 'call' and pr[1] == 'f':
+                            continue  # the callee position of a call: already counted by the call node
                         # fn items used as values (e.g. `.map(ToString::to_string)`, `filter_map(TypeId::as_scalar_id)`)
                         r = n['res']
                         if r.get('r') == 'def' and r.get('dk') in ('Fn', 'AssocFn'):
